@@ -12,7 +12,8 @@ EXPLANATION = (
     "reach truediv/floordiv/mod with the right operand order. Residual: raw==repr numeric identity; binary64 exactness of // on aligned doubles."
     ' Added after the third round of seeded changes: current n_int after resize (C02.R3), the 64-bit machine carrier the pre-scaling runs in (C18.R5), transparent numpy dispatch for np.divide/floor_divide/mod (C15.R5), template sizes (C08.R3b), route selection (C07.R8), constructor state (C20.R2).'
     ' Added after the fourth round of seeded changes: R9 kernels out of place (C07.R9); read-back conversions (C16.R2); C20.R8 objects carry only the documented attributes and no function writes module-level containers (no caches / memos that go stale).'
-    ' Added after the fifth round of seeded changes: C20.R8 also forbids mutable default arguments and private attributes hung on operands (x._cache, x.__dict__[...]).')
+    ' Added after the fifth round of seeded changes: C20.R8 also forbids mutable default arguments and private attributes hung on operands (x._cache, x.__dict__[...]).'
+    ' Added after the sixth round of seeded changes: shift counts are typed as terms (np.array(k, dtype=...) wrappers are transparent) and operand right shifts are floorshift events (C09.R2).')
 ASSUMPTIONS = ["operands are well-formed (n_int = n_word - n_frac - [signed], n_word >= 1)", "Python/NumPy // floors and % takes the divisor's sign (lemma)"]
 TRUSTED = ["CPython ast", "fxlint ordering procedure (sound, incomplete)", "scale typing rules of DESIGN A6"]
 
